@@ -147,3 +147,21 @@ Proof.
   intros Heps Hs Hw k. destruct (crop_ranges_tl_spec eps w focus m Heps Hs Hw) as [A _].
   destruct (crop_indices_tl_spec eps w focus m) as [_ B]. rewrite A, B. reflexivity.
 Qed.
+
+(* the frame count samples(d, mode) is never negative (finding F12: the strict count was, for a
+   duration shorter than the window) *)
+Theorem samples_nonneg w d m : 0 < w_step w -> 0 < w_dur w -> 0 <= d -> 0 <= samples w d m.
+Proof.
+  intros Hs Hd H. destruct m; cbn [samples].
+  - apply (fdiv_iff (d + w_dur w) (w_step w) 0 Hs). lia.
+  - lia.
+  - replace 0 with (rhe (0 * w_step w) (w_step w)) at 1 by (apply rhe_exact; exact Hs). apply rhe_mono; lia.
+Qed.
+Theorem samples_strict_zero_when_too_short w d : 0 < w_step w -> d < w_dur w -> samples w d AStrict = 0.
+Proof.
+  intros Hs H. cbn [samples]. pose proof (fdiv_spec (d - w_dur w) (w_step w) Hs). 
+  assert (fdiv (d - w_dur w) (w_step w) <= -1) by nia. lia.
+Qed.
+Theorem old_strict_count_refuted :
+  exists w d, 0 < w_step w /\ 0 < w_dur w /\ 0 <= d /\ fdiv (d - w_dur w) (w_step w) + 1 < 0.
+Proof. exists (mkWin 2 1 0 None), 0. vm_compute. repeat split; reflexivity || discriminate. Qed.
